@@ -1306,9 +1306,17 @@ class Evaluator(object):
                 if f is not None and digits is not None:
                     q = Fraction(10) ** digits
                     return C(Fraction(round(f * q), 1) / q)
+                if len(a) == 1 and not kwargs:
+                    # round to the nearest integer: a different function from truncation
+                    if f is not None:
+                        return C(round(f))
+                    return alg.opaque('nearest', (a[0],))
                 return a[0]
             if short == 'int' and len(a) == 1:
                 if isinstance(a[0], Rat):
+                    sa_ = _single_atom(a[0])
+                    if sa_ is not None and sa_.kind == 'fn' and sa_.name == 'nearest':
+                        return a[0]
                     f = a[0].as_fraction()
                     if f is not None:
                         return C(int(f))
